@@ -20,7 +20,7 @@ Toks(c) ==
                       Tok("unknown", 0, "hc"), Tok("na", 0, "dictsize=8192"), Tok("unknown", 0, "foo=1")}
     [] c = "xz" -> {Tok("level", 0, "level=abc"), Tok("level", 9, "level=9"), Tok("level", 10, "level=10"),
                     Tok("dict", 8192, "dictsize=8192"), Tok("dict", 65536, "dictsize=64k"), Tok("dict", 98304, "dictsize=96K"), Tok("dict", 10000, "dictsize=10000"),
-                    Tok("dict", 4096, "dictsize=4096"), Tok("dict", 2097152, "dictsize=2m"), Tok("dictpct", 50, "dictsize=50%"), Tok("dict", 131072, "dictsize=131072"),
+                    Tok("dict", 4096, "dictsize=4096"), Tok("dict", 2097152, "dictsize=2m"), Tok("dict", 1048576, "dictsize=1M"), Tok("dict", 786432, "dictsize=768k"), Tok("dictpct", 50, "dictsize=50%"), Tok("dict", 131072, "dictsize=131072"),
                     Tok("lc", 4, "lc=4"), Tok("lc", 0, "lc=0"), Tok("lp", 1, "lp=1"), Tok("lp", 4, "lp=4"), Tok("pb", 4, "pb=4"), Tok("pb", 5, "pb=5"),
                     Tok("flag", 1, "x86"), Tok("flag", 8, "arm"), Tok("flag", 256, "extreme"), Tok("unknown", 0, "rle"), Tok("na", 0, "window=15")}
     [] c = "lzma" -> {Tok("level", 9, "level=9"), Tok("level", 10, "level=10"), Tok("dict", 8192, "dictsize=8192"), Tok("lc", 4, "lc=4"), Tok("lp", 1, "lp=1"),
@@ -96,6 +96,10 @@ HostileRecords ==
   {[kind |-> "lz4", version |-> v, flags |-> f] : v \in {0, 1, 2}, f \in {{}, {1}, {2}}} \cup
   {[kind |-> "zstd", level |-> l] : l \in {0, 1, 22, 23, 100000}}
 
+(* the 2 byte header in front of the record: 0x8000 | size, the size being exactly the one the compressor expects; anything else is refused *)
+(* BEFORE the record is copied (it goes into a 64 byte buffer on the stack)                                                                *)
+HeaderClasses == {"ok", "shorter", "longer", "fills64", "block8k", "max", "compressed"}
+ReadAccepts(r, h) == h = "ok" /\ ReadOK(r)
 VARIABLE inp
 Init == inp \in Inputs
 Next == UNCHANGED inp
@@ -111,8 +115,8 @@ LaterWins == (Len(inp.toks) = 2 /\ inp.toks[1].k = inp.toks[2].k /\ inp.toks[1].
              => Out(inp) = Out([inp EXCEPT !.toks = <<inp.toks[2]>>])
 DefaultsStoreNothing == (inp.toks = <<>> /\ inp.c \notin {"lz4"} /\ ~(inp.c = "xz" /\ inp.bs < 8192)) => Out(inp).stored = None
 (* the reader's side: accepted exactly the usable records *)
-HostileJudged == inp = inp /\ \A r \in HostileRecords : ReadOK(r) = Usable(r)
+HostileJudged == inp = inp /\ \A r \in HostileRecords : ReadOK(r) = Usable(r) /\ \A h \in HeaderClasses \ {"ok"} : ~ReadAccepts(r, h)
 RenderSet(S) == S
 EmitOK == Emit => PrintT(<<"RESULT", ToJson([c |-> inp.c, bs |-> inp.bs, toks |-> [j \in 1..Len(inp.toks) |-> inp.toks[j].s], out |-> Out(inp)])>>)
-EmitHostile == (Emit /\ inp.toks = <<>> /\ inp.c = "gzip" /\ inp.bs = 4096) => PrintT(<<"HOSTILE", ToJson([recs |-> {[r |-> r, ok |-> ReadOK(r)] : r \in HostileRecords}])>>)
+EmitHostile == (Emit /\ inp.toks = <<>> /\ inp.c = "gzip" /\ inp.bs = 4096) => PrintT(<<"HOSTILE", ToJson([recs |-> {[r |-> r, h |-> h, ok |-> ReadAccepts(r, h)] : r \in HostileRecords, h \in HeaderClasses}])>>)
 =============================================================================
